@@ -257,7 +257,8 @@ impl ElementType {
         let mut current_ver_list_start = ver_list_start;
         // go through the hierarchy of groups: only the final index in element_indices can refer to a SubElement::Element
         for idx in 0..(element_indices.len() - 1) {
-            match &current_spec[element_indices[idx]] {
+            // an index that does not exist in the specification is not an error of the caller that warrants a panic
+            match current_spec.get(element_indices[idx])? {
                 SubElement::Element { .. } => {
                     // elements are not allowed here
                     return None;
@@ -270,7 +271,7 @@ impl ElementType {
         }
 
         let last_idx = *element_indices.last().unwrap();
-        Some((&current_spec[last_idx], VERSION_INFO[current_ver_list_start + last_idx]))
+        Some((current_spec.get(last_idx)?, VERSION_INFO[current_ver_list_start + last_idx]))
     }
 
     /// get the version mask of a sub element
@@ -306,7 +307,8 @@ impl ElementType {
             if let Some((SubElement::Group(groupid), _)) = self.get_sub_element_spec(&element_indices[..len]) {
                 DATATYPES[*groupid as usize].mode
             } else {
-                unreachable!("impossible: element container is not a group");
+                // the indices do not describe a sub element of this type: fall back to the mode of the type itself
+                DATATYPES[self.typ as usize].mode
             }
         }
     }
@@ -386,7 +388,10 @@ impl ElementType {
             && element_indices2.len() > prefix_len
             && element_indices[prefix_len] == element_indices2[prefix_len]
         {
-            let sub_elem = &ElementType::get_sub_elements(result)[element_indices[prefix_len]];
+            // indices that do not exist in the specification end the common prefix
+            let Some(sub_elem) = ElementType::get_sub_elements(result).get(element_indices[prefix_len]) else {
+                return GroupType(result);
+            };
             match sub_elem {
                 SubElement::Element(_) => return GroupType(result),
                 SubElement::Group(groupid) => {
